@@ -2,7 +2,8 @@
    Train/EvalRegroup.v (rewards in Z) are run on the inputs the real rl4co code was driven with and compared
    with what it returned.  Result code 0 = agree. *)
 From Coq Require Import List ZArith QArith Qcanon Bool Arith.
-From RL4CO Require Import Base.OField Base.OFieldQc Train.EvalRegroup Train.Augment.
+From RL4CO Require Import Base.OField Base.OFieldQc Train.EvalRegroup Train.Augment Train.EvalAggregate
+  Train.SharedStepGrid.
 Import ListNotations.
 Close Scope Qc_scope.
 Close Scope Q_scope.
@@ -82,3 +83,51 @@ Definition check_regroup (c : rg_case) : Z :=
 Definition pc_case : Type := (list (list (list nat)) * list (list nat))%type.
 Definition check_pad_concat (c : pc_case) : Z :=
   if list_eq_dec (list_eq_dec Nat.eq_dec) (ev_pad_concat (fst c)) (snd c) then 0%Z else 1%Z.
+
+(* ---- EvalBase.__call__: the reported aggregates ------------------------------------------------------
+   case = (tol, the reward tensors the _inner calls returned per loader batch,
+           out["rewards"], out["avg_reward"]);  1 = rewards are not the concatenation, 2 = avg_reward differs *)
+Definition av_case : Type := (Q * list (list Q) * list Q * Q)%type.
+Fixpoint c15_qc_list_eqb (a b : list Qc) : bool :=
+  match a, b with
+  | [], [] => true
+  | x :: a', y :: b' => Qc_eq_bool x y && c15_qc_list_eqb a' b'
+  | _, _ => false
+  end.
+Definition check_avg_reward (c : av_case) : Z :=
+  match c with
+  | (tol, batches, rew, avg) =>
+      let bq := map (map c15_toQc) batches in
+      if negb (c15_qc_list_eqb (ev_rewards (K:=QcF) bq) (map c15_toQc rew)) then 1%Z
+      else if c15_close (c15_toQc tol) (ev_avg_reward (K:=QcF) bq) (c15_toQc avg) then 0%Z else 2%Z
+  end.
+
+(* ---- POMO / SymNCO shared_step over the configuration grid --------------------------------------------
+   case = (model 0 = POMO / 1 = SymNCO, num_augment, num_starts, env.get_num_starts, phase 0 train / 1 val / 2 test,
+           does the stub policy return "actions", rewards of the policy rows (integers),
+           observed: (0 = returned / 1 = constructor raised / 2 = shared_step raised, max_reward, max_aug_reward flattened))
+   1 = raise-vs-return (or the stage) differs, 2 = max_reward differs, 3 = max_aug_reward differs *)
+Definition gr_case : Type :=
+  (nat * nat * option nat * nat * nat * bool * list Z * (nat * option (list Z) * option (list Z)))%type.
+Definition c15_phase (p : nat) : ss_phase := match p with 0 => PhTrain | 1 => PhVal | _ => PhTest end.
+Definition c15_optlist_eqb (a b : option (list Z)) : bool :=
+  match a, b with
+  | None, None => true
+  | Some x, Some y => if list_eq_dec Z.eq_dec x y then true else false
+  | _, _ => false
+  end.
+Definition check_grid (c : gr_case) : Z :=
+  match c with
+  | (kind, A, ns, es, ph, ha, reward, (stage, omr, omar)) =>
+      let m := match kind with
+               | 0 => pomo_shared_step Z.leb 0%Z A ns es (c15_phase ph) ha reward
+               | _ => symnco_shared_step Z.leb 0%Z A ns (c15_phase ph) reward
+               end in
+      match m with
+      | SSRaises st => if Nat.eqb st stage then 0%Z else 1%Z
+      | SSReturns mr mar =>
+          if negb (Nat.eqb stage 0) then 1%Z
+          else if negb (c15_optlist_eqb mr omr) then 2%Z
+          else if negb (c15_optlist_eqb mar omar) then 3%Z else 0%Z
+      end
+  end.
